@@ -2,6 +2,7 @@ import Sgz.Model.Irregular
 import Mathlib.Data.List.Sort
 import Mathlib.Tactic.Ring
 import Mathlib.Tactic.Linarith
+import Sgz.Proofs.HeaderReads
 /-!
 # C08 — irregular 3D surveys: inferred grid and trace identity
 
@@ -131,5 +132,29 @@ theorem inferred_axis (ids : List Int) (start d : Int) (n : Nat) (hn : 2 ≤ n) 
 -- non-vacuity: unequal increments and independent starts on the two axes; listing in any order
 example : inferRange [30, 10, 20] = some (10, 30, 10) ∧ inferRange [7, 5, 9, 11] = some (5, 11, 2) := by decide
 example : populated [12, 0, 14, 0, 0, 16] = [0, 2, 5] ∧ ordinalToGrid [12, 0, 14, 0, 0, 16] 2 = some 5 := by decide
+
+/-- header `t` of a file made from an irregular survey, after any history of header operations and in either padding mode,
+is the header stored at the grid slot of the `t`-th populated trace (Model/HeaderReads; the slots are those where the
+stored inline-number array is non-zero, in grid order — `populated` above) -/
+theorem header_is_tth_populated_slot (h : HeaderReads.HFile) (il : Nat) (st : HeaderReads.HSt)
+    (hinv : HeaderReads.HInv h il st) (t : Nat) (loadAll : Bool)
+    (h3 : h.is3d = true) (hs : h.structured = false) (hsto : HeaderReads.hasStored h = true) :
+    HeaderReads.HR.vals (HeaderReads.genTraceHeader h il st t loadAll).2 =
+      (match (HeaderReads.positions h il)[t]? with
+       | some pos => .ok (HeaderReads.headerAt h pos)
+       | none => .error .index) := by
+  rw [(HeaderReads.genTraceHeader_spec h il st hinv t loadAll (fun x => by rw [hs] at x; cases x) (fun _ _ => hsto)).2,
+    HeaderReads.headerCanon_unstructured h il t h3 hs hsto]
+  cases (HeaderReads.positions h il)[t]? <;> rfl
+
+/-- the populated slots of the header model are those of `populated` on the stored inline-number array -/
+theorem positions_eq_populated (h : HeaderReads.HFile) (il : Nat) :
+    HeaderReads.positions h il = populated (HeaderReads.rawArray h il) := by
+  unfold HeaderReads.positions populated HeaderReads.rawArray
+  rw [List.length_map, List.length_range]
+  apply List.filter_congr
+  intro p hp
+  have hp' : p < h.grid := List.mem_range.mp hp
+  simp [List.getD, hp']
 
 end Sgz.Props.C08
